@@ -33,6 +33,7 @@ def run(tier):
     hs = [list(h) for h in sorted(set(tuple(h) for h in hs))]
     progs = inputs.programs(check, tier)
     progs = sorted(progs, key=lambda p: -len(p["src"]))[:nprog // 2] + rng.sample(progs, nprog // 2)
+    progs += rng.sample(inputs.signature_programs(), 60 if tier == "quick" else 600)
     # files with several namespace sections, imports and references whose short names collide (rendered from NsResolver.tla)
     progs += [{"src": s, "ver": "7.4"} for s in c14.sample_sources(check, tier, nprog // 2)]
     tasks = []
